@@ -79,7 +79,7 @@ def ngetJudge (kind : String) (reloaded : Bool) (key : Nat) (refVal : Option (Na
 /-- facts about the history that explain a counter mismatch after a reload -/
 structure History where
   emptyPut : Bool := false       -- some put had size ≤ 0
-  noopDelete : Bool := false     -- some delete hit an absent or already deleted key
+  noopDelete : Bool := false     -- the in-memory map wrote a tombstone for an absent or already deleted key
   rewritten : Bool := false      -- some key was written while a record for it already existed
 
 /-- counters (fileCount deletedCount contentSize deletedSize maxKey idxEntries) after a reload must
@@ -87,7 +87,7 @@ structure History where
 def reloadJudge (kind : String) (h : History) (online reloaded : List String) : Option String :=
   if online = reloaded then none
   else if h.emptyPut then some s!"{kind}-reload/empty-needle-counted-as-deletion"
-  else if kind == "mem" ∧ h.noopDelete then some "mem-reload/noop-delete-counted-as-deletion"
+  else if h.noopDelete then some "mem-reload/noop-delete-counted-as-deletion"
   else if kind != "mem" ∧ h.rewritten then some "metricFromIndexFile/rewritten-key-counted-as-one-file"
   else some s!"{kind}-reload/counters-differ"
 
